@@ -435,6 +435,7 @@ class Interp:
     def __init__(self, prog, world, summaries):
         self.P, self.W, self.S = prog, world, summaries
         self.depth = 0
+        self.S_types_custom = ()
         self.cur_crate = None
         self.trace = None
         self.fn_used = set()
@@ -810,6 +811,22 @@ class Interp:
         if "unicode::" in key and len(args) == 1:
             m = re.search(r"(?:^|::)unicode::([A-Z][A-Z0-9_]*)$", key)
             if m: return self.unicode_property(m.group(1), args[0])
+        if key.endswith("::parse") and "parse::<" in callee and "str" in key:
+            tgt = callee[callee.rindex("parse::<") + 8:].rstrip(">")
+            from .summaries_str import as_str, concrete_bytes
+            b = concrete_bytes(as_str(self, args[0]))
+            if b is None: raise Unsupported("str::parse of symbolic text")
+            w = INT_W.get(tgt)
+            if w is None: raise Unsupported("str::parse::<" + tgt + ">")
+            E = lambda: err(Agg([Enum("IntErrorKind", "InvalidDigit", 1)], "ParseIntError"))
+            t = b.decode(errors="replace")
+            signed = tgt[0] == "i"
+            m = re.match(r"^([+-]?)(\d+)$", t)
+            if not m or (m.group(1) == "-" and not signed): return E()
+            v = int(m.group(2)) * (-1 if m.group(1) == "-" else 1)
+            lo, hi = (-(1 << (w - 1)), (1 << (w - 1)) - 1) if signed else (0, (1 << w) - 1)
+            if not lo <= v <= hi: return E()
+            return ok(v & ((1 << w) - 1))
         if key.endswith("::collect") and "collect::<" in callee:
             tgt = callee[callee.rindex("collect::<") + 10:]
             from .summaries import iter_to_list
@@ -817,6 +834,26 @@ class Interp:
                 return VecObj(iter_to_list(self, args[0]))
             if tgt.startswith(("String", "alloc::string::String", "std::string::String")):
                 return self.S["<String as FromIterator>::from_iter"](self, args[0])
+            if tgt.startswith(("Result<Vec<", "core::result::Result<Vec<", "Result<alloc::vec::Vec<", "std::result::Result<Vec<")):
+                out = []
+                for x in iter_to_list(self, args[0]):
+                    if x.idx == 1: return x
+                    out.append(x.f[0])
+                return ok(VecObj(out))
+            if tgt.startswith(("HashMap<String", "std::collections::HashMap<String", "HashMap<&str", "BTreeMap<String", "HashMap<alloc::string::String")):
+                from .summaries_str import as_str, concrete_bytes
+                m = MapObj()
+                for kv in iter_to_list(self, args[0]):
+                    kb = concrete_bytes(as_str(self, kv.f[0]))
+                    if kb is None: raise Unsupported("map with symbolic keys")
+                    m.d[kb] = Agg([kv.f[0], kv.f[1]], "tuple")
+                return m
+            if tgt.startswith(("Option<Vec<",)):
+                out = []
+                for x in iter_to_list(self, args[0]):
+                    if x.idx == 0: return x
+                    out.append(x.f[0])
+                return some(VecObj(out))
             raise Unsupported("collect into " + tgt[:60])
         s = self.S.get(key)
         if s is not None:
@@ -843,6 +880,17 @@ class Interp:
                         rt = self.runtime_type(args[0])
                         if rt == tgt or (tgt == "String" and rt == "String"): return args[0]
                         raise Unsupported(f"Into<{tgt}> from {rt}")
+                trl = tr.split("::")[-1]
+                if args and trl in ("PartialEq", "Clone", "Ord", "PartialOrd") and norm_type(ty) not in self.S_types_custom:
+                    # derived impls on field-less enums / scalars: structural (two crates may define same-named types)
+                    v0 = args[0]
+                    for _ in range(4):
+                        u = unwrap_ptr(v0)
+                        if type(u) is Ptr: v0 = self.read(u.cell, u.path)
+                        else: break
+                    if (type(v0) is Enum and not v0.f and v0.ty not in ("Option", "Result", "Ordering")):
+                        g = self.S.get(f"<_ as {trl}>::{meth}")
+                        if g is not None: return g(self, *args)
                 # normalised type
                 k2 = f"<{norm_type(ty)} as {tr.split('::')[-1]}>::{meth}"
                 s = self.S.get(k2)
